@@ -67,7 +67,28 @@ def content(hc):
     return nodes, edges
 
 
-@with_history
+def _warmup(h):
+    """Ask the projections and the s-centralities once; results are discarded."""
+    from hypergraphx.representations import projections as PR
+    from hypergraphx.measures import s_centralities as SC
+    PR.bipartite_projection(h)
+    PR.clique_projection(h)
+    for s in (1, 2):
+        PR.line_graph(h, s=s)
+        SC.s_betweenness(h, s=s)
+        SC.s_closeness(h, s=s)
+    PR.line_graph(h, distance="jaccard", s=0.5)
+    SC.s_betweenness_nodes(h)
+    SC.s_closeness_nodes(h)
+
+
+def _warmup_directed(h):
+    from hypergraphx.representations import projections as PR
+    PR.directed_line_graph(h)
+    PR.directed_line_graph(h, s=2)
+
+
+@with_history(warmup=_warmup)
 def build_hypergraph(hc, relabel=None, order_seed=None):
     """Build the real Hypergraph through the public API.
 
@@ -164,7 +185,7 @@ def directed_content(dc):
     return nodes, edges
 
 
-@with_history
+@with_history(warmup=_warmup_directed)
 def build_directed(dc):
     from hypergraphx import DirectedHypergraph
     L = dc["labels"]
